@@ -41,8 +41,11 @@ def bounds(tier):
     return {"value_alphabet": spaces.SIGMA_VAL, "max_len": 4 if tier == "quick" else 5, "specials": len(SPECIALS), "ints": INTS, "option_sets": len(OPTIONS), "keys": KEYS}
 
 
+SIGMA_STRUCT = ["{", "}", '"', "a"]  # delimiter structure of middling length (nesting inside quotes, quotes inside nesting)
+
+
 def shards(tier):
-    return [("harvest", s) for s in seq_shards(spaces.SIGMA_VAL, 4 if tier == "quick" else 5)] + [("specials", 0), ("ints", 0), ("leak", 0), ("casekeys", 0)]
+    return [("harvest", s) for s in seq_shards(spaces.SIGMA_VAL, 4 if tier == "quick" else 5)] + [("struct", s) for s in seq_shards(SIGMA_STRUCT, 7 if tier == "quick" else 10, min_len=5 if tier == "quick" else 6, prefix_len=2)] + [("specials", 0), ("ints", 0), ("leak", 0), ("casekeys", 0)]
 
 
 def ref_strip(v):
@@ -300,6 +303,10 @@ def run_shard(shard, tier, acc):
                                 check_value(f.value, acc, seen)
                     elif isinstance(b, String) and isinstance(b.value, str):
                         check_value(b.value, acc, seen)
+    elif kind == "struct":
+        for toks in seq_iter(SIGMA_STRUCT, shard[1]):
+            acc.count("struct_values")
+            check_value("".join(toks), acc, seen)
     elif kind == "casekeys":
         check_case_keys(acc)
     elif kind == "leak":
